@@ -29,6 +29,7 @@ import (
 
 	"go.uber.org/zap"
 
+	"github.com/mimiro-io/datahub/internal/conf"
 	"github.com/mimiro-io/datahub/internal/jobs"
 	"github.com/mimiro-io/datahub/internal/security"
 	"github.com/mimiro-io/datahub/internal/server"
@@ -49,6 +50,23 @@ type c14Op struct {
 
 func (o c14Op) String() string { b, _ := json.Marshal(o); return string(b) }
 
+// VAppParts: the components of a whole hub instance as app.go wires them (NewDatahubInstance), handed over by the
+// harness file of the root package; Stop is DatahubInstance.Stop.
+type VAppParts struct {
+	Store  *server.Store
+	Dsm    *server.DsManager
+	Bus    server.EventBus
+	Runner *jobs.Runner
+	Sched  *jobs.Scheduler
+	Core   *security.ServiceCore
+	Tps    *security.TokenProviders
+	Web    *WebService
+	Stop   func()
+}
+
+// VAppFactory is set by the root package's harness file.
+var VAppFactory func(env *conf.Config) (*VAppParts, error)
+
 type c14World struct {
 	dir  string
 	jw   *jobs.JWorld
@@ -56,6 +74,44 @@ type c14World struct {
 	tps  *security.TokenProviders
 	h    *server.VHist
 	jobs map[string]bool
+	app  bool
+}
+
+// c14OpenApp: the hub is a DatahubInstance built by app.go's NewDatahubInstance; a restart is its Stop followed by a
+// new NewDatahubInstance on the same configuration.
+func c14OpenApp() *c14World {
+	if VAppFactory == nil {
+		panic("harness: no app factory registered")
+	}
+	dir := server.VNewScratchDir("c14app")
+	env := &conf.Config{Logger: zap.NewNop().Sugar(), Env: "test", StoreLocation: filepath.Join(dir, "store"), Port: "0",
+		RunnerConfig:  &conf.RunnerConfig{PoolIncremental: 10, PoolFull: 5, Concurrent: 0},
+		Auth:          &conf.AuthConfig{Middleware: "noop"},
+		AdminUserName: "admin", AdminPassword: "secret", NodeID: "n1", SecurityStorageLocation: filepath.Join(dir, "security")}
+	c16CopyNodeKeys(env.SecurityStorageLocation)
+	w := &c14World{dir: dir, jobs: map[string]bool{}}
+	w.jw = &jobs.JWorld{W: &server.VWorld{Dir: dir, Env: env}}
+	var parts *VAppParts
+	adopt := func() {
+		jobs.JSilenceStdout()
+		p, err := VAppFactory(env)
+		if err != nil {
+			panic("NewDatahubInstance: " + err.Error())
+		}
+		parts = p
+		w.jw.W.VAdopt(p.Store, p.Dsm, p.Bus)
+		w.jw.Runner, w.jw.Sched = p.Runner, p.Sched
+		w.core, w.tps = p.Core, p.Tps
+	}
+	adopt()
+	w.jw.RestartFn = func() {
+		parts.Stop()
+		adopt()
+	}
+	w.jw.StopFn = func() { parts.Stop() }
+	w.app = true
+	w.h = w.jw.W.NewHist()
+	return w
 }
 
 func c14Open() *c14World {
@@ -83,7 +139,9 @@ func (w *c14World) security() {
 
 func (w *c14World) restart() {
 	w.jw.Restart()
-	w.security()
+	if !w.app {
+		w.security()
+	}
 }
 
 func (w *c14World) destroy() {
@@ -489,6 +547,8 @@ func diffClause(a, b []string) string {
 }
 
 type C14Params struct {
+	// App: the hub under test is a whole DatahubInstance (app.go), restarted through its own Stop
+	App   bool `json:"app,omitempty"`
 	Probe bool `json:"probe"`
 }
 
@@ -506,7 +566,13 @@ func c14Replay(task engine.SeqTask) (res engine.SeqResult) {
 			}()
 		}
 	}()
-	w = c14Open()
+	var prm C14Params
+	_ = json.Unmarshal(task.Params, &prm)
+	if prm.App {
+		w = c14OpenApp()
+	} else {
+		w = c14Open()
+	}
 	h := w.h
 	// the job sink is not part of the model: only the differential oracle looks at it. It is created first, so
 	// that B is the most recently created dataset of the initial state
@@ -727,17 +793,21 @@ func init() {
 	})
 	engine.RegisterCheck("C14", func(r *engine.Run) {
 		r.Rule = "SEQ: every history up to the stated depth over the alphabet {restart, 3 data writes incl. a two-dataset transaction, a lookup by full URI in an unmentioned namespace, create plain / with public namespaces, rename, delete, add job, pause, run, register client, set ACL, delete ACL, add login provider} (wide alphabet adds proxy dataset, re-create, paused and fullsync jobs, a job with an on-change trigger (real event bus: registered topics and per-subscriber topic sets are part of the observation), unpause, reset, delete job, un-register, second client/ACL, delete provider) on a hub of its own (store, dataset manager, runner, scheduler, security core, token providers); after every history (a) data read APIs vs the reference model that ignores restarts, (b) full observation through every read API before vs after a stop/start, (c) raw-key invariants after the restart and after a probe write; states deduplicated by canonical raw scan + non-entity observation"
-		r.Assumptions = []string{"quiescent points only: no full sync in progress, no running job at the moment of the restart", "Restart = Runner.Stop, Store.Close, then NewStore, NewDsManager, NewRunner, NewScheduler, NewServiceCore, NewProviderManager/NewTokenProviders on the same directories", "node key pre-generated (2048 bit)"}
+		r.Assumptions = []string{"quiescent points only: no full sync in progress, no running job at the moment of the restart", "Restart = Runner.Stop, Store.Close, then NewStore, NewDsManager, NewRunner, NewScheduler, NewServiceCore, NewProviderManager/NewTokenProviders on the same directories", "node key pre-generated (2048 bit)", "searches c14-app*: the hub is a DatahubInstance built by app.go's NewDatahubInstance (real wiring, real web service object, no listener), Restart = DatahubInstance.Stop then NewDatahubInstance on the same configuration"}
 		if err := c16PrepareKeys(); err != nil {
 			r.Cap("cannot prepare keys: " + err.Error())
 			return
 		}
+		appParams, _ := json.Marshal(C14Params{App: true})
 		if r.Quick() {
 			engine.RunSeq(r, engine.SeqSpec{Name: "c14-core", WorkerArgs: []string{"worker", "c14"}, Alphabet: c14OpsJSON(c14Alphabet(false)), Depth: 3, Budget: 150 * time.Second})
 			engine.RunSeq(r, engine.SeqSpec{Name: "c14-wide", WorkerArgs: []string{"worker", "c14"}, Alphabet: c14OpsJSON(c14Alphabet(true)), Depth: 2, Budget: 60 * time.Second})
+			engine.RunSeq(r, engine.SeqSpec{Name: "c14-app", WorkerArgs: []string{"worker", "c14"}, Alphabet: c14OpsJSON(c14Alphabet(true)), Params: appParams, Depth: 1, Budget: 60 * time.Second})
+			engine.RunSeq(r, engine.SeqSpec{Name: "c14-app-core", WorkerArgs: []string{"worker", "c14"}, Alphabet: c14OpsJSON(c14Alphabet(false)), Params: appParams, Depth: 2, Budget: 60 * time.Second})
 		} else {
 			engine.RunSeq(r, engine.SeqSpec{Name: "c14-core", WorkerArgs: []string{"worker", "c14"}, Alphabet: c14OpsJSON(c14Alphabet(false)), Depth: 4, Budget: 60 * time.Minute})
 			engine.RunSeq(r, engine.SeqSpec{Name: "c14-wide", WorkerArgs: []string{"worker", "c14"}, Alphabet: c14OpsJSON(c14Alphabet(true)), Depth: 3, Budget: 60 * time.Minute})
+			engine.RunSeq(r, engine.SeqSpec{Name: "c14-app", WorkerArgs: []string{"worker", "c14"}, Alphabet: c14OpsJSON(c14Alphabet(true)), Params: appParams, Depth: 2, Budget: 30 * time.Minute})
 		}
 	})
 }
